@@ -30,3 +30,30 @@ fn c12_layout_add_keeps_order_and_entries() {
     }
     println!("CASES c12_layout_add {cases}");
 }
+
+/// every layout entry produced by mask-and-shift code starts (and, with a known width, ends) inside its slot
+#[test]
+fn c12_mask_shift_entries_lie_inside_the_slot() {
+    use crate::c08::{analyze_layout};
+    let mut cases = 0;
+    for shift in [0u16, 8, 96, 128, 160, 196, 200, 240, 248, 255, 256, 300] {
+        for (mask_pos, mask_len) in [(0u32, 8u32), (8, 8), (56, 8), (64, 16), (128, 32), (160, 96), (248, 8)] {
+            // PUSH1 0 SLOAD PUSH2 shift SHR PUSH32 mask AND PUSH1 1 SSTORE STOP
+            let mask = ((U256::ONE << mask_len) - U256::ONE) << mask_pos;
+            let mut code = vec![0x60, 0x00, 0x54, 0x61];
+            code.extend(shift.to_be_bytes());
+            code.push(0x1c);
+            code.push(0x7f);
+            code.extend(mask.to_be_bytes());
+            code.extend([0x16, 0x60, 0x01, 0x55, 0x00]);
+            if let Some(slots) = analyze_layout(&code) {
+                for (idx, off, width) in slots {
+                    if off >= 256 { witness("C12", "arith.sub_word.region_inside_slot", format!("(sload(0) >> {shift}) & (mask at bit {mask_pos} len {mask_len}): {code:02x?}"), format!("entry slot {idx} offset {off}"), "offset < 256".into()); }
+                    if let Some(w) = width { if off + w > 256 { witness("C12", "arith.sub_word.region_inside_slot", format!("(sload(0) >> {shift}) & (mask at bit {mask_pos} len {mask_len}): {code:02x?}"), format!("entry slot {idx} offset {off} width {w}"), "offset + width <= 256".into()); } }
+                }
+            }
+            cases += 1;
+        }
+    }
+    println!("CASES c12_mask_shift {cases}");
+}
